@@ -23,7 +23,7 @@ Next ==
      /\ \/ \E e \in Estimators, a \in ArgIds, fresh \in BOOLEAN :
              /\ (hist = <<>> => ~fresh)          \* the first call runs on the initial (fresh) client anyway
              /\ GetEstimates(e, a, fresh)
-        \/ NatSummary
+        \/ \E sa \in ArgIds : NatSummary(sa)
   \/ /\ proc.id < MaxProcs /\ NCalls < MaxCalls /\ hist # <<>> /\ hist[Len(hist)].op # "process"
      /\ \E h \in HashSeeds : NewProcess(h)
 
@@ -31,7 +31,7 @@ Spec == Init /\ [][Next]_hvars
 
 \* ---- export
 \* class of call i = index of the first call of the history with the same key (= the same digest in this design)
-KeyOf(ev) == IF ev.op = "summary" THEN NatKey(ev.arg) ELSE EstKey(ev.est, ev.arg)
+KeyOf(ev) == IF ev.op = "summary" THEN NatKey(ev.arg, ev.sarg) ELSE EstKey(ev.est, ev.arg)
 ClassOf(i) == CHOOSE j \in 1..i : KeyOf(hist[j]) = KeyOf(hist[i]) /\ \A k \in 1..(j - 1) : KeyOf(hist[k]) # KeyOf(hist[i])
 ExportDone ==
   (Export /\ NCalls = MaxCalls) =>
